@@ -127,6 +127,15 @@ impl Report {
                 "index": index,
                 "detail": detail,
             }));
+            // what has been observed so far survives a later hang of the workload (the orchestrator's wall-clock watchdog
+            // kills the process; a killed process is inconclusive, but a violation it had already observed stays observed)
+            if *n == 1 {
+                if let Some(p) = &self.cli.out {
+                    let mut v = self.to_json();
+                    v["partial"] = json!(true);
+                    let _ = std::fs::write(format!("{}.partial", p), serde_json::to_string(&v).unwrap());
+                }
+            }
         }
     }
     pub fn violations_total(&self) -> u64 {
